@@ -8,6 +8,14 @@ CHECKS = {
          "Every explored text is decided by an independent recognizer and compared with IsValid, the value-wise and token-wise Decoder and Unmarshal under all four option combinations; all strings over a 33-byte critical alphabet and a 30-fragment lexical alphabet up to length 4 (quick) / 5 (thorough) are enumerated exhaustively, the rest is seeded exploration. Held on what was executed, not a proof.",
          "trusted base: /verif/ref recognizer and tokenizer (self-tested each run against the toolchain's encoding/json.Valid); depth limit and float64-overflow clause taken from the docs",
          "DESIGN.md §4 C01"),
+ "C05": ("fault_enumeration", "differential runtime monitor: same call script over the whole input vs over chunked/faulty readers (explicit cut and transient-fault schedules, enumerated exhaustively for short inputs), event logs compared; conservation law after every call; hook shadow-check of the decode buffer",
+         "Every case runs a ReadToken/ReadValue/SkipValue/PeekKind script twice - whole input at once and through a reader with an explicit schedule of cuts, empty reads, data+EOF and transient faults - and compares the complete event logs (token text, offsets, depth, every stack index, stack pointer, error class+offset+pointer); after every call input[:InputOffset]++UnreadBuffer must equal the bytes handed out; transient faults must leave all observable state unchanged and the retried identical call must continue. All single cuts, all cut pairs and all fault positions of the short corpus are enumerated; larger inputs get seeded random schedules. UnmarshalRead and UnmarshalDecode are compared with Unmarshal.",
+         "reference run = same API over a bytes.Buffer (its events are checked against /verif/ref by C16); SkipValue is not required to be retry-atomic; hooks (tag verif) add a shadow check that the decode buffer equals the stream after every compaction/growth",
+         "DESIGN.md §4 C05"),
+ "C16": ("exploration", "reference-model runtime monitor: independent tokenizer/prefix analyzer predicts offsets, stack depth/index/pointer after every coder call and the admissible location of every syntactic error; planted conversion failures give exact ground truth for semantic errors",
+         "After every Decoder and Encoder call in generated scripts the offsets, StackDepth, every StackIndex and StackPointer are compared with an independent tokenizer; Pointer methods are checked against RFC 6901 on generated token lists; every rejected text is sent through the token, value, skip, Unmarshal and UnmarshalRead paths (several chunk sizes) and ByteOffset/JSONPointer must lie in the set the property allows, exactly for duplicate names; conversion failures planted at known paths in generated types must be reported with exactly that pointer and offset.",
+         "trusted base: /verif/ref tokenizer and prefix analyzer; OutputOffset is taken to include the newline after a completed top-level value",
+         "DESIGN.md §4 C16"),
 }
 
 NOT_YET = {}
